@@ -3,12 +3,92 @@
 """Gen_Coeffs.v from SourceMap::calcCoefficiants (src/SM/SourceMap.cpp).
 
 Idiom: `switch (it) { case K: ic[0] = e0; ... ic[m-1] = e_{m-1}; break; ... }` with each e_j an
-arithmetic expression in `f` and literals.  Float literals computed in double and narrowed
+arithmetic expression in `f` and literals; or the same selection written as a chain
+`if (it == K) {...} else if (it == K') {...} ...` without a final else (distinct constants, so the order of the
+tests does not matter); `it` may be copied into a local const first.  Float literals computed in double and narrowed
 (`interpol_t(-1./6.)`) become exact quotients (DESIGN 3: the model is exact arithmetic; the
 2^-25 relative error of that literal is part of the rounding envelope)."""
 import sys, os
 sys.path.insert(0, os.path.dirname(os.path.abspath(__file__)))
 from cxx_ast import *
+
+
+def assign_stmt(n, env):
+    n = strip(n)
+    if n.get("kind") != "BinaryOperator" or n.get("opcode") != "=":
+        raise TranslateError("statement is not an assignment: %s" % n.get("kind"))
+    lhs, rhs = kids(n)
+    lhs = strip(lhs)
+    if lhs.get("kind") != "ArraySubscriptExpr":
+        raise TranslateError("lhs is not ic[k]")
+    base, idx = [strip(x) for x in kids(lhs)]
+    if base["referencedDecl"]["name"] != "ic" or idx.get("kind") != "IntegerLiteral":
+        raise TranslateError("lhs is not ic[<literal>]")
+    return int(idx["value"]), to_ir(rhs, env)
+
+
+def enum_values():
+    vals = {}
+    for d in ast_of("src/SM/SourceMap.cpp", "InterpolationType"):
+        if d.get("kind") == "EnumDecl" and d.get("name") == "InterpolationType":
+            for c in kids(d):
+                n, v = c, None
+                while n is not None and v is None:
+                    if "value" in n:
+                        v = int(n["value"])
+                    ks = kids(n)
+                    n = ks[0] if ks else None
+                if c.get("kind") == "EnumConstantDecl" and v is not None:
+                    vals[c["name"]] = v
+    return vals
+
+
+def const_of(n, enums):
+    n = strip(n)
+    if n.get("kind") == "IntegerLiteral":
+        return int(n["value"])
+    if n.get("kind") == "DeclRefExpr" and n["referencedDecl"].get("kind") == "EnumConstantDecl":
+        nm = n["referencedDecl"]["name"]
+        if nm in enums:
+            return enums[nm]
+    return None
+
+
+def if_chain(node, aliases, env):
+    """if (it == K) {assignments} else if (it == K') {...} ... (no final else)"""
+    enums = enum_values()
+    cases = {}
+    while node is not None:
+        if node.get("kind") != "IfStmt":
+            raise TranslateError("the if chain ends in an unconditional else branch")
+        ks = kids(node)
+        if len(ks) not in (2, 3):
+            raise TranslateError("if statement with an init statement or condition variable")
+        cond = strip(ks[0])
+        if cond.get("kind") != "BinaryOperator" or cond.get("opcode") != "==":
+            raise TranslateError("condition of the chain is not an equality test")
+        a, b = kids(cond)
+        sa, sb = strip(a), strip(b)
+        if sa.get("kind") == "DeclRefExpr" and sa["referencedDecl"]["name"] in aliases:
+            val = const_of(b, enums)
+        elif sb.get("kind") == "DeclRefExpr" and sb["referencedDecl"]["name"] in aliases:
+            val = const_of(a, enums)
+        else:
+            raise TranslateError("condition does not test `it`")
+        if val is None:
+            raise TranslateError("condition does not compare `it` with a constant")
+        if val in cases:
+            raise TranslateError("duplicate case %d" % val)
+        blk = ks[1]
+        sts = kids(blk) if blk.get("kind") == "CompoundStmt" else [blk]
+        cases[val] = {}
+        for st in sts:
+            j, e = assign_stmt(st, env)
+            if j in cases[val]:
+                raise TranslateError("ic[%d] assigned twice in case %d" % (j, val))
+            cases[val][j] = e
+        node = ks[2] if len(ks) == 3 else None
+    return cases
 
 
 def translate():
@@ -18,30 +98,31 @@ def translate():
     if params != ["ic", "f", "it"]:
         raise TranslateError("parameters changed: %s" % params)
     st = kids(body)
-    if len(st) != 1 or st[0]["kind"] != "SwitchStmt":
-        raise TranslateError("body is not a single switch")
-    sw = st[0]
-    cond, comp = kids(sw)[0], kids(sw)[-1]
-    c = strip(cond)
-    if c.get("kind") != "DeclRefExpr" or c["referencedDecl"]["name"] != "it":
-        raise TranslateError("switch is not over `it`")
+    # local const copies of `it` (`const uint_fast8_t npoints = it;`)
+    aliases = {"it"}
+    while st and st[0].get("kind") == "DeclStmt":
+        for vd in kids(st[0]):
+            init = strip(kids(vd)[-1]) if kids(vd) else None
+            if (vd.get("kind") != "VarDecl" or init is None or init.get("kind") != "DeclRefExpr"
+                    or init["referencedDecl"]["name"] not in aliases or "const" not in vd.get("type", {}).get("qualType", "")):
+                raise TranslateError("unexpected local declaration %s" % vd.get("name"))
+            aliases.add(vd["name"])
+        st = st[1:]
     env = {"f": ("var", "f")}
     cases = {}
     cur = None
+    if len(st) == 1 and st[0]["kind"] == "IfStmt":
+        cases = if_chain(st[0], aliases, env)
+        return emit(cases)
+    if len(st) != 1 or st[0]["kind"] != "SwitchStmt":
+        raise TranslateError("body is neither a single switch nor an if/else-if chain")
+    sw = st[0]
+    cond, comp = kids(sw)[0], kids(sw)[-1]
+    c = strip(cond)
+    if c.get("kind") != "DeclRefExpr" or c["referencedDecl"]["name"] not in aliases:
+        raise TranslateError("switch is not over `it`")
 
-    def assign(n):
-        n = strip(n)
-        if n.get("kind") != "BinaryOperator" or n.get("opcode") != "=":
-            raise TranslateError("statement is not an assignment: %s" % n.get("kind"))
-        lhs, rhs = kids(n)
-        lhs = strip(lhs)
-        if lhs.get("kind") != "ArraySubscriptExpr":
-            raise TranslateError("lhs is not ic[k]")
-        base, idx = [strip(x) for x in kids(lhs)]
-        if base["referencedDecl"]["name"] != "ic" or idx.get("kind") != "IntegerLiteral":
-            raise TranslateError("lhs is not ic[<literal>]")
-        return int(idx["value"]), to_ir(rhs, env)
-
+    assign = lambda n: assign_stmt(n, env)
     for s in kids(comp):
         k = s.get("kind")
         if k == "CaseStmt":
@@ -72,6 +153,10 @@ def translate():
             if j in cases[cur]:
                 raise TranslateError("ic[%d] assigned twice in case %d" % (j, cur))
             cases[cur][j] = e
+    return emit(cases)
+
+
+def emit(cases):
     out = []
     out.append("(* GENERATED on every run by translate/coeffs2coq.py from src/SM/SourceMap.cpp")
     out.append("   (SourceMap::calcCoefficiants). Do not edit. *)")
